@@ -108,6 +108,12 @@ TWINS = {  # one rule-breaking edit each
 T_ = "        "
 TWINS_OTHER = {  # rules that are not about layout: the twin must be rejected (observed exit status + located diagnostic); nothing for a solver to decide unless it is accepted
     "multi_byte_array": {"extra_types": T_ + '<type name="arr16" primitiveType="uint16" length="2"/>\n', "m_bl": "20", "extra_fields": T_ + '<field name="xa" id="20" type="arr16"/>\n'},
+    # a zero-length array (the varData placeholder of a <data> header) is an array as well: multi-byte elements are rejected there too
+    "multi_byte_zero_length_type": {"extra_types": T_ + '<type name="z16" primitiveType="uint16" length="0"/>\n'},
+    "multi_byte_vardata": {"extra_types": T_ + '<composite name="vdw">\n' + T_ + '    <type name="length" primitiveType="uint8"/>\n' + T_ + '    <type name="varData" primitiveType="uint16" length="0"/>\n' + T_ + '</composite>\n',
+                           "_after_group": T_ + '<data name="xd" id="21" type="vdw"/>\n'},
+    "multi_byte_vardata_through_ref": {"extra_types": T_ + '<type name="w32" primitiveType="int32" length="0"/>\n' + T_ + '<composite name="vdr">\n' + T_ + '    <type name="length" primitiveType="uint16"/>\n' + T_ + '    <ref name="varData" type="w32"/>\n' + T_ + '</composite>\n',
+                                       "_after_group": T_ + '<data name="xd" id="21" type="vdr"/>\n'},
     "unknown_type_reference": {"m_bl": "20", "extra_fields": T_ + '<field name="xu" id="20" type="nosuchtype"/>\n'},
     "data_type_not_a_composite": {"extra_fields": "", "extra_types": "", "_after_group": T_ + '<data name="xd" id="21" type="lim"/>\n'},
     "dimension_type_not_a_composite": {"_after_group": T_ + '<group name="xg" id="22" dimensionType="es">\n' + T_ + '    <field name="q" id="23" type="uint8"/>\n' + T_ + '</group>\n'},
